@@ -423,9 +423,11 @@ pub mod meta {
         if NLEN == 0 {
             assert!(r == Some(0), "oracle: empty needle must match at 0");
         }
-        kani::cover!(r.is_none() && hlen == hmax, "no occurrence at max length");
         if NLEN > 0 {
+            kani::cover!(r.is_none() && hlen == hmax, "no occurrence at max length");
             kani::cover!(matches!(r, Some(i) if i + NLEN == hlen) && hlen == hmax, "occurrence at the very end");
+        } else {
+            kani::cover!(hlen == hmax, "empty needle, max length");
         }
     }
 
@@ -443,15 +445,17 @@ pub mod meta {
         if NLEN == 0 {
             assert!(r == Some(hlen), "oracle: empty needle must match at haystack.len()");
         }
-        kani::cover!(r.is_none() && hlen == hmax, "no occurrence at max length");
         if NLEN > 0 {
+            kani::cover!(r.is_none() && hlen == hmax, "no occurrence at max length");
             kani::cover!(r == Some(0) && hlen == hmax, "occurrence at the very start");
+        } else {
+            kani::cover!(hlen == hmax, "empty needle, max length");
         }
     }
 }
 
-inst!(m_oneshot_fwd, [props=C03+C14 xprops=C05 tier=quick cfg=x86std+generic t=1500 role=memmem-find-oneshot uw=is_equal_raw:3;Hash:6;rabinkarp::Finder::new:6;rabinkarp::FinderRev::new:6;find_raw:12;rfind_raw:12;oracle:6], 4, meta::oneshot::<3, 8>(false));
-inst!(m_oneshot_rev, [props=C04+C05+C14 tier=quick cfg=x86std+generic t=1500 role=memmem-rfind-oneshot uw=is_equal_raw:3;Hash:6;rabinkarp::Finder::new:6;rabinkarp::FinderRev::new:6;find_raw:12;rfind_raw:12;oracle:6], 4, meta::oneshot::<3, 8>(true));
+inst!(m_oneshot_fwd, [props=C03+C14 xprops=C05 tier=quick cfg=x86std t=1500 role=memmem-find-oneshot uw=is_equal_raw:3;Hash:6;rabinkarp::Finder::new:6;rabinkarp::FinderRev::new:6;find_raw:12;rfind_raw:12;oracle:6], 4, meta::oneshot::<3, 8>(false));
+inst!(m_oneshot_rev, [props=C04+C05+C14 tier=quick cfg=x86std t=1500 role=memmem-rfind-oneshot uw=is_equal_raw:3;Hash:6;rabinkarp::Finder::new:6;rabinkarp::FinderRev::new:6;find_raw:12;rfind_raw:12;oracle:6], 4, meta::oneshot::<3, 8>(true));
 inst!(m_finder_n0, [props=C03+C14 tier=quick cfg=x86std t=900 role=finder-empty uw=@RK;@TWNEW;@TWOFF;with_ranker:6;oracle:6], 3, meta::finder::<0, 20>(2, 0, 20));
 inst!(m_finder_rev_n0, [props=C04+C14 tier=quick cfg=x86std t=900 role=finderrev-empty uw=@RK;@TWNEW;@TWOFF;with_ranker:6;oracle:6], 3, meta::finder_rev::<0, 20>(0, 20));
 
